@@ -47,6 +47,8 @@ def apply_patch(text):
         if not m or not mo or mo.group(1) is None:
             return None     # new or deleted files are not part of the corpora
         rel = m.group(1)
+        if not rel.endswith('.py'):
+            continue        # documentation changed along with the code: not analysed
         path = os.path.join(REPO, rel)
         if not os.path.exists(path):
             return None
